@@ -176,6 +176,10 @@ func gen(r *sx.Rng, idx int) (maxSize int, timeout time.Duration, ops []op, kind
 			default:
 				off = uint32(r.Next() % (uint64(spread) + 1))
 			}
+			if spread > 1000 && r.Chance(3, 5) {
+				// the edges of the 2^24 window: pairs exactly 2^24-1 apart, and one or two inside
+				off = sx.Pick(r, []uint32{0, 0, 1, 2, spread - 2, spread - 1, spread, spread})
+			}
 			o.seq = base + off
 			if kind == "hostile" && r.Chance(1, 2) {
 				o.seq = uint32(r.Next())
